@@ -203,7 +203,7 @@ theorem detOuter_render : ∀ (rest : List Piece) (pre : Str) (found : Bool) (fu
               exact get_at' e _ 0 (by simp; try omega) (by simp)
             simp only [detInner, hclose, if_true, hnext, hc, if_false]
             have e2 : t = (pre ++ '{' :: (syntaxOf s ++ ['}']) ++ [c]) ++ render r' := by rw [e]; simp
-            have hok' : detectOK r' = true := by simpa [detectOK] using hok
+            have hok' : detectOK r' = true := by simp [detectOK, startsText] at hok; exact hok
             have hfu : (render r').length < f := by
               cases s <;> simp [render, Piece.render] at hfuel <;> omega
             -- the induction hypothesis is for `r = text c :: r'`; use it through one plain step
@@ -216,9 +216,9 @@ theorem detOuter_render : ∀ (rest : List Piece) (pre : Str) (found : Bool) (fu
                     simp only [wf, List.all_cons, Bool.and_eq_true] at hwr; exact hwr.1
                   simp only [Piece.wf, Bool.and_eq_true, bne_iff_ne, ne_eq] at this; exact this.1)] at hstep
             rw [hstep]; simp [Piece.isNamed]
-          | escOpen => simp [detectOK] at hok
-          | escClose => simp [detectOK] at hok
-          | field n2 s2 => simp [detectOK] at hok
+          | escOpen => simp [detectOK, startsText] at hok
+          | escClose => simp [detectOK, startsText] at hok
+          | field n2 s2 => simp [detectOK, startsText] at hok
 
 /-- **detection**, for every template of the grammar in the class `detectOK` -/
 theorem contains_render (ps : List Piece) (hw : wf ps = true) (hok : detectOK ps = true) :
